@@ -35,6 +35,11 @@ IU = 'utils.iter_utils'
 def run(ctx: Ctx):
   for r in (r1, r2, r3, r4):
     ctx.guard(r)
+  from mlmverif.props import c04
+  from mlmverif.props._queue import model as qmodel
+  ctx.include('R-C13-5', '"collects every generator\'s return value": the'
+              ' return values are recorded before end-of-stream can be'
+              ' observed (R-C04-6)', c04.r6, qmodel(ctx), min_instances=2)
 
 
 def r1(ctx: Ctx):
